@@ -159,16 +159,17 @@ fn lv_bytes<T: Pod, L: spl_list_view::PodLength>(offset: usize, bytes: &[u8]) ->
             None => err = Some("init panicked".into()),
             Some(Ok((l, c))) => {
                 if !well_formed { err = Some("init accepted a buffer that read-only and mutable opening reject for its layout (too short, misaligned or not a whole number of elements)".into()); }
-                else if l != 0 || c != (if sz == 0 { 0 } else { (n - hdr) / sz }) { err = Some("init did not yield an empty list of capacity (buffer - header) / element size".into()); }
+                else if l != 0 || c != (if sz == 0 { 0 } else { n.saturating_sub(hdr) / sz }) { err = Some("init did not yield an empty list of capacity (buffer - header) / element size".into()); }
             }
             Some(Err(_)) => if well_formed { err = Some("init rejected a buffer in the documented layout".into()); },
         }
     }
     if ro_s.starts_with("ok") {
         let cap: usize = ro_s.split("cap=").nth(1).unwrap().split(' ').next().unwrap().parse().unwrap();
-        let expect_cap = if sz == 0 { 0 } else { (n - hdr) / sz };
-        if n < hdr || cap != expect_cap { err = Some(format!("capacity {cap} != (buffer - header) / element size = {expect_cap}")); }
-        if sz > 0 && (n - hdr) % sz != 0 { err = Some("accepted a data region that is not a whole number of elements".into()); }
+        let expect_cap = if sz == 0 { 0 } else { n.saturating_sub(hdr) / sz };
+        if n >= hdr && cap != expect_cap { err = Some(format!("capacity {cap} != (buffer - header) / element size = {expect_cap}")); }
+        if n >= hdr && sz > 0 && (n - hdr) % sz != 0 { err = Some("accepted a data region that is not a whole number of elements".into()); }
+        if n < hdr { err = Some(format!("accepted a buffer of {n} bytes, shorter than the header (prefix + padding = {hdr} bytes)")); }
         if (lo + hdr) % al != 0 { err = Some("accepted a misaligned data region".into()); }
         // the stored length, read at its full width, must not exceed the capacity and must be the view's length
         let mut le = [0u8; 16];
@@ -474,6 +475,12 @@ pub fn generate_c10(tier: &str, rng: &mut Rng) -> Vec<String> {
             v.push(format!("lv {t} {l} {} {}", off % 16, hex(&vec![0xffu8; hdr + 4 * sz.max(1)])));
         }
         for n in 0..=hdr + 1 { v.push(format!("lv {t} {l} 0 {}", hex(&rng.bytes(n)))); }
+        if pad > 0 {
+            // buffers shorter than the header (in particular exactly the prefix) at the start offset where the address right
+            // behind the PREFIX is aligned for the element type: too short is too short wherever the buffer sits
+            let off = (al - (wl % al)) % al;
+            for n in [wl.saturating_sub(1), wl, wl + 1, hdr - 1] { let mut b = rng.bytes(n); if n > 0 { b[0] = 0; } for x in b.iter_mut().take(wl) { *x = 0; } v.push(format!("lv {t} {l} {} {}", off % 16, hex(&b))); }
+        }
         if al > 1 {
             // buffers that start at an address NOT aligned for the element type but would hold a whole number of elements if
             // the data were taken to start at the next aligned ADDRESS (instead of after the documented, static padding):
